@@ -1,4 +1,5 @@
 """C12 — path decoding and normalisation (DESIGN.md §4.12). Equality with a reference decoder is not decided."""
+import re
 from ..facts import load, S, strip, nodes, is_lit, lit_name, root_of, AnalysisBroken
 from ..report import Result
 from .. import cfg as C
@@ -282,6 +283,7 @@ def run(repo='/repo', tier='quick'):
     res.assumptions.append('equality with the documented pipeline on values, idempotence and "no dot segment remains" are not decided')
     c12f(db, res)
     c12g(db, res)
+    c12h(db, res)
     return res
 
 
@@ -417,3 +419,99 @@ def c12g(db, res):
                     res.check(not any(rs), 'C12.g', key, '%s keeps counting inside a character' % cnt,
                               'the byte counter is reset in the middle of a multi-byte character: overlong forms are no longer recognised', blk['stmts'][-1]['loc'])
     res.floor('C12.g', 'UTF-8 scanner loops', n, 2)
+
+
+STALLS = {
+    # function: (atom whose edge is a reviewed, bounded stall of the read cursor, reason)
+    'htp_normalize_uri_path_inplace': (('c', '!=', '-1'), 'c is a one-byte look-ahead register: an iteration entered with a pending byte consumes that byte (c = -1) instead of the cursor'),
+    'htp_utf8_decode_path_inplace': (('counter', '!=', '1'), 'the byte that breaks a multi-byte sequence is re-examined once as the start of the next character (decoder state and counter are reset)'),
+}
+
+
+def c12h(db, res):
+    """Every iteration of a scanning loop consumes input: the cursor that the loop condition compares with the length is
+    advanced on every path through the body back to the loop head.  (Necessary for termination, for "never longer" and for
+    each input byte to be decoded once.)  Flag locals are tracked, so `if (!handled)` is decided per value of the flag."""
+    from .. import guards as G
+    res.rule('C12.h', 'progress: in every loop of an in-place decoder whose condition is `cursor < length`, each path through the body back to the loop head advances that cursor (two reviewed, bounded stalls are tabled with their reason)')
+    n = 0
+    for f in inplace_functions(db):
+        flags = G.flag_locals(f)
+        for h, body in C.loops(f):
+            cnd = f.cond_of(h)
+            if not cnd:
+                continue
+            a = P.canon(cnd[0])
+            if not a or a[1] != '<' or not re.match(r'^\w+$', a[0]):
+                continue
+            cur = a[0]
+            n += 1
+            stall = STALLS.get(f.name)
+
+            def advances(st):
+                for y in nodes(st):
+                    if y['k'] == 'un' and y['op'] in ('++', '++post') and P.K(y['e']) == cur:
+                        return True
+                    if y['k'] == 'assign' and P.K(y['l']) == cur and y['op'] in ('+=', '='):
+                        return True
+                return False
+
+            def flagstep(fl, st):
+                fl = dict(fl)
+                for y in nodes(st):
+                    if y['k'] == 'assign' and y['op'] == '=' and strip(y['l']).get('k') == 'var' and strip(y['l'])['name'] in flags and is_lit(strip(y['r'])):
+                        fl[strip(y['l'])['name']] = strip(y['r'])['v']
+                    elif y['k'] == 'decl':
+                        for v in y['vars']:
+                            if v['name'] in flags and 'init' in v and is_lit(strip(v['init'])):
+                                fl[v['name']] = strip(v['init'])['v']
+                return fl
+            # forward must-analysis inside the loop body over (block, flag values): "the cursor has been advanced since the loop head"
+            entry = f.blocks[h]['succs'][0]
+            IN = {(entry, ()): False}
+            work = [(entry, ())]
+            back = []
+            used_stall = [False]
+            while work:
+                b, flk = work.pop()
+                v = IN[(b, flk)]
+                fl = dict(flk)
+                blk = f.blocks[b]
+                for st in blk['stmts']:
+                    v = v or advances(st)
+                    fl = flagstep(fl, st)
+                dead = set()
+                if blk.get('term', {}).get('kind') == 'SwitchStmt' and blk['stmts']:
+                    # a switch over an enum whose cases name every enumerator has no other way out (other values are outside the configuration lattice)
+                    et = (strip(blk['stmts'][-1]).get('t') or '').replace('enum ', '')
+                    vals = {e_['v'] for e_ in db.enums.get(et, {}).get('enumerators', [])}
+                    labs = {(f.blocks[s2].get('label') or {}).get('v') for s2 in blk['succs'] if s2 is not None and (f.blocks[s2].get('label') or {}).get('kind') == 'CaseStmt'}
+                    if vals and vals <= labs:
+                        dead = {s2 for s2 in blk['succs'] if s2 is not None and (f.blocks[s2].get('label') or {}).get('kind') not in ('CaseStmt', 'DefaultStmt')}
+                c2 = f.cond_of(b)
+                for j, s_ in enumerate(blk['succs']):
+                    if s_ is None or s_ in dead:
+                        continue
+                    if c2:
+                        at = P.canon(c2[0], j == 0)
+                        if at and at[0] in fl and at[2].lstrip('-').isdigit() and at[1] in ('==', '!='):
+                            if (fl[at[0]] == int(at[2])) != (at[1] == '=='):
+                                continue                   # contradicts the constant the flag holds
+                        if stall and at == stall[0]:
+                            used_stall[0] = True
+                            continue                       # reviewed stall
+                    if s_ == h:
+                        back.append((b, v))
+                        continue
+                    if s_ not in body:
+                        continue
+                    k2 = (s_, tuple(sorted(fl.items())))
+                    nv = v if k2 not in IN else (IN[k2] and v)
+                    if k2 not in IN or nv != IN[k2]:
+                        IN[k2] = nv
+                        work.append(k2)
+            bad = [b for b, v in back if not v]
+            key = '%s:loop(%s<%s):advances' % (f.name, cur, a[2])
+            res.check(not bad and bool(back), 'C12.h', key, '%s is advanced before every way back to the loop head (%d block/flag states explored)%s' % (cur, len(IN), ('; reviewed stall excluded: ' + stall[1]) if stall and used_stall[0] else ''),
+                      'an iteration of %s can return to the loop head without advancing %s: the same byte is decoded again and again and the output is filled with it' % (f.name, cur), cnd[0]['loc'])
+    res.floor('C12.h', 'scanning loops of in-place decoders', n, 4)
